@@ -120,7 +120,8 @@ def random_program(rng, *, max_cleanups=4, kinds=RAISE_KINDS, p_raise=0.35, feat
             elif r < 0.72 and "patch" in feats:
                 acts.append(patch_action(rng, p))
             elif r < 0.80 and "fixture" in feats:
-                acts.append(fixture_action(rng, tok, "bad_fixture_detail" in feats, "old_style_fixture" in feats))
+                acts.append(fixture_action(rng, tok, "kbd" if "bad_fixture_detail_kbd" in feats else "bad_fixture_detail" in feats,
+                                           "old_style_fixture" in feats))
             elif r < 0.90 and "details" in feats:
                 acts.append(detail_action(rng, tok, feats))
             elif r < 0.95 and "onexc" in feats:
@@ -158,9 +159,13 @@ def random_program(rng, *, max_cleanups=4, kinds=RAISE_KINDS, p_raise=0.35, feat
         p["clone_id"] = "prog.clone"
     if "eq_exc" in feats and rng.random() < 0.12:
         # two stages raise exceptions that compare equal / the very same object
-        kind = rng.choice(["eqexc", "sameobj", "skip-then-eqany"])
+        kind = rng.choice(["eqexc", "sameobj", "skip-then-eqany", "eqany-then-kbd"])
         t = tok("EQ")
-        if kind == "skip-then-eqany":
+        if kind == "eqany-then-kbd":
+            # an error whose class compares by value, and later a real interrupt that happens to carry the same arguments
+            p["test"].append(["raise", "eqany", t])
+            p["su_pre"].insert(0, ["cleanup", "ceq", [["raise", "kbd", t]]])
+        elif kind == "skip-then-eqany":
             # a skip, and later an error whose class compares by value and so is == that skip's exception
             p["test"].append(["raise", "skip", t])
             p["su_pre"].insert(0, ["cleanup", "ceq", [["raise", "eqany", t]]])
@@ -301,7 +306,9 @@ def fixture_action(rng, tok, bad_detail=False, old_style=False):
     if bad_detail and rng.random() < 0.3:
         # only where testtools itself evaluates the detail (successful setUp -> gathering cleanup);
         # a failing _setUp would make the fixtures library evaluate it before its own clean-up
-        spec["bad_detail"] = True
+        spec["bad_detail"] = bad_detail       # True: reading it raises an error; "kbd": the user interrupts just then
+        if bad_detail == "kbd":
+            spec.pop("setup_override", None)  # (a fixture that did set up: its clean-up is owed)
         spec["setup"] = "ok"
         spec.pop("nested", None)
         spec.pop("late_fill", None)
